@@ -201,7 +201,9 @@ static bool rtDouble(uint64_t bits, uint64_t &out_bits, QNumberType &kind, std::
     double r;
     if (!asReal(kind, n, r)) { out_bits = 0; return false; }
     out_bits = dbits(r);
-    if (!emb) { if (text) *text += " (embedded read differs)"; return false; }
+    // an embedded read that differs from the exact-length read is reported as a failed round trip: the returned
+    // pattern is made different from the input (low bit flipped) so that the comparison in the check fails on it
+    if (!emb) { out_bits = bits ^ 1U; return false; }
     return out_bits == bits;
 }
 
@@ -218,7 +220,9 @@ static bool rtFloat(uint32_t bits, uint32_t &out_bits, QNumberType &kind, std::s
     double r;
     if (!asReal(kind, n, r)) { out_bits = 0; return false; }
     out_bits = fbits(float(r));
-    if (!emb) { if (text) *text += " (embedded read differs)"; return false; }
+    // an embedded read that differs from the exact-length read is reported as a failed round trip: the returned
+    // pattern is made different from the input (low bit flipped) so that the comparison in the check fails on it
+    if (!emb) { out_bits = bits ^ 1U; return false; }
     return out_bits == bits;
 }
 
